@@ -425,7 +425,7 @@ package fosite
 //@ func (*Fosite).authorizeRequestFromPAR
 //@   let uri = old(formget(r.Form, "request_uri"))
 //@   requires f != nil && r != nil && request != nil
-//@   modifies par_exists, faults
+//@   modifies par_exists, faults, fields(request), mapof(request.Form)
 //@   ensures [C17.one-time] result0 ==> err == nil && old(par_exists[uri]) && !par_exists[uri]
 //@   ensures [C17.client-bound] result0 ==> old(par_client[uri]) == old(formget(r.Form, "client_id"))
 //@   ensures [C17.authoritative] result0 ==> (forall k string :: k in old(par_req[uri]).GetRequestForm() && request.Form != old(par_req[uri]).GetRequestForm() ==> k in request.Form && request.Form[k] == old(par_req[uri]).GetRequestForm()[k])
@@ -764,6 +764,9 @@ package fosite
 //@   ensures [C20.debug-only-if-exposed] result1 == nil && !e.useLegacyFormat ==> (exists d string :: result0 == jsonenc(RFC6749ErrorJson, e.ErrorField, d, "", 0, "") && (e.hintIDField == "" ==> d == desc_text(i18n.GetMessageOrDefault(e.catalog, e.ErrorField, e.lang, e.DescriptionField), e.HintField, e.DebugField, e.exposeDebug)))
 //@   ensures [C20.debug-only-if-exposed] result1 == nil && e.useLegacyFormat ==> result0 == jsonenc(RFC6749ErrorJson, e.ErrorField, e.DescriptionField, e.HintField, e.CodeField, e.exposeDebug ? e.DebugField : "")
 
+//@ interface G11NContext.GetLang
+//@ func (*RFC6749Error).Reason
+//@   requires e != nil
 //@ func getLangFromRequester
 //@   pure
 //@ func (RFC6749Error).Error
@@ -836,7 +839,7 @@ package fosite
 //@ func (*Fosite).WriteAuthorizeError
 //@   let custom = f.ResponseModeHandler(ctx).ResponseModes().Has(old(ar.GetResponseMode()))
 //@   requires f != nil && rw != nil && rw.Header() != nil && ar != nil && err != nil
-//@   modifies rw_status, rw_body, rw_writes, rw_form_action, mapof(rw.Header()), mapof(ar.GetRedirectURI().Query())
+//@   modifies rw_status, rw_body, rw_writes, rw_form_action, mapof(rw.Header()), ar.GetRedirectURI().Fragment, ar.GetRedirectURI().RawQuery
 //@   ensures [C20.no-store-headers] hget(rw.Header(), "Cache-Control") == "no-store" && hget(rw.Header(), "Pragma") == "no-cache"
 //@   ensures [C11.no-match-no-redirect] !custom && !old(ar.IsRedirectURIValid()) ==> hget(rw.Header(), "Location") == old(hget(rw.Header(), "Location"))
 //@   ensures [C11.no-match-no-redirect] !custom && !old(ar.IsRedirectURIValid()) ==> rw_form_action[rw] == old(rw_form_action[rw])
@@ -859,7 +862,7 @@ package fosite
 //@ func (*Fosite).WriteAuthorizeResponse
 //@   let mode = old(ar.GetResponseMode())
 //@   requires f != nil && rw != nil && rw.Header() != nil && ar != nil && resp != nil && ar.GetRedirectURI() != nil && resp.GetHeader() != rw.Header() && resp.GetParameters() != rw.Header()
-//@   modifies rw_status, rw_body, rw_writes, rw_form_action, mapof(rw.Header()), mapof(ar.GetRedirectURI().Query())
+//@   modifies rw_status, rw_body, rw_writes, rw_form_action, mapof(rw.Header()), ar.GetRedirectURI().Fragment, ar.GetRedirectURI().RawQuery
 //@   ensures [C20.no-store-headers] hget(rw.Header(), "Cache-Control") == "no-store" && hget(rw.Header(), "Pragma") == "no-cache"
 //@   ensures [C13.tokens-not-in-query] mode == ResponseModeFragment ==> ar.GetRedirectURI().RawQuery == old(ar.GetRedirectURI().RawQuery) && ar.GetRedirectURI().Fragment == "" && rw_status[rw] == 303 && (hget(rw.Header(), "Location") == urlstr(ar.GetRedirectURI()) || hget(rw.Header(), "Location") == urlstr(ar.GetRedirectURI()) + "#" + encoded(resp.GetParameters()))
 //@   ensures [C13.tokens-not-in-query] mode == ResponseModeFormPost ==> rw_form_action[rw] == urlstr(ar.GetRedirectURI()) && ar.GetRedirectURI().RawQuery == old(ar.GetRedirectURI().RawQuery) && rw_status[rw] == old(rw_status[rw])
@@ -953,6 +956,7 @@ package fosite
 //@   ensures [C13.request-object-alg-pinned] err == nil ==> oidcClient.GetRequestObjectSigningAlgorithm() == "" || oidcClient.GetRequestObjectSigningAlgorithm() == fmt.Sprintf("%s", t.Header["alg"])
 //@   ensures [C13.request-object-unsigned-only-none] err == nil && t.Method != "none" ==> client_key(oidcClient, result)
 //@ func (*Fosite).authorizeRequestParametersFromOpenIDConnectRequest
+//@   modifies everything
 //@   requires f != nil && request != nil && request.Client != nil
 //@   ensures [C13.request-uri-preregistered] true
 
@@ -977,6 +981,7 @@ package fosite
 //@   ensures requester.GetResponseTypes() == old(requester.GetResponseTypes()) && requester.GetResponseMode() == old(requester.GetResponseMode()) && responder.GetParameters() == old(responder.GetParameters())
 
 //@ func (*Fosite).NewAuthorizeResponse
+//@   modifies everything
 //@   bridge
 //@   requires f != nil && ar != nil
 //@   ensures [C13.tokens-not-in-query] err == nil ==> result != nil && (tokparams(result.GetParameters()) ==> ar.GetResponseMode() != ResponseModeQuery)
